@@ -6,8 +6,36 @@
 #include <string.h>
 #include <stdint.h>
 #include <inttypes.h>
+#include <signal.h>
+#include <unistd.h>
 
 #define LP_MAXW 64
+
+/* Watchdog: no script line may take longer than LP_WATCHDOG seconds (default 120, environment
+   variable LP_WATCHDOG overrides, 0 disables).  A daemon that deadlocks or wedges (a violation of
+   several properties) then ends the harness with exit code 124 and a line on stderr after two
+   minutes instead of blocking the check until its outer timeout. */
+static void lp_watchdog_fire (int sig)
+{
+  static const char msg[] = "lp-watchdog: HANG - the harness made no progress on one script line (deadlock or wedged daemon)\n";
+  (void) sig;
+  if (write (2, msg, sizeof (msg) - 1)) {}
+  fflush (stdout);
+  _exit (124);
+}
+
+static void lp_watchdog_kick (void)
+{
+  static int secs = -1;
+  if (secs < 0)
+  {
+    const char *e = getenv ("LP_WATCHDOG");
+    secs = (NULL != e) ? atoi (e) : 120;
+    if (secs < 0) secs = 0;
+    if (secs > 0) signal (SIGALRM, lp_watchdog_fire);
+  }
+  if (secs > 0) alarm ((unsigned int) secs);
+}
 
 struct lp_line {
   char *buf;        /* owned copy of the line */
@@ -22,6 +50,7 @@ static int lp_read (FILE *f, struct lp_line *l)
   for (;;)
   {
     ssize_t r = getline (&l->buf, &l->cap, f);
+    lp_watchdog_kick ();
     if (r < 0) return 0;
     while (r > 0 && (l->buf[r-1] == '\n' || l->buf[r-1] == '\r' || l->buf[r-1] == ' ')) l->buf[--r] = 0;
     l->n = 0;
